@@ -132,6 +132,21 @@ def run(ctx):
         rng.shuffle(sched)
         j, pos = interleaved_job(i, pa, pb, sched, fresh=(i % 3 == 0))
         pairs.append((pa, pb, sched)); jobs.append(j); poss.append(pos)
+    # failure storms: instance A does nothing but fail, in every way a form can fail (reading, expanding a macro, running),
+    # dozens of times; instance B runs an ordinary program in between and must not notice, and new instances can be made
+    STORM = ["(if)", "(let ((y 2)) (begin (if)))", "(cond)", "(car 5)", "(let ((x 1)) (cond ((car x) 1)))", "(undefined-thing 1)", "(lambda)", "(let ((y)) y)",
+             "(import (no such library))", "(define-syntax broken (syntax-rules))", "(broken 1)", "(when)", "(case)", "(and (or (when #t (vector-ref (vector) 1))))",
+             "(define-syntax loop-forever (syntax-rules () ((loop-forever) (undefined-helper (loop-forever-2)))))", "(loop-forever)", ")", "(quote)", "(let* ((a 1) (b (car a))) b)",
+             "(set! never-defined 1)", "((lambda (x) x))", "(1 2 3)", "(vector-set! #(1) 0 2)", "(/ 1 0)"]
+    for i in range(n, n + (6 if tier == "quick" else 40)):
+        pb = G.derived_program(rng) if rng.random() < 0.6 else G.core_program(rng)
+        # (most failures happen while a derived form or user macro is being expanded or while its expansion runs)
+        heavy = [t for t in STORM if any(k in t for k in ("(let", "(cond", "(when", "(case", "(and", "broken", "loop-forever"))]
+        pa = [{"t": "rawtext", "text": rng.choice(heavy if rng.random() < 0.7 else STORM)} for _ in range(rng.randint(150, 250))]
+        sched = [1] * len(pa) + [2] * len(pb)
+        rng.shuffle(sched)
+        j, pos = interleaved_job(i, pa, pb, sched, fresh=True)
+        pairs.append(([], pb, sched)); jobs.append(j); poss.append(dict(pos, a=[]))
     results = run_jobs(jobs, ctx.dir, tag="validate", timeout=3000, job_timeout_ms=15000)
     progs, fake = [], []
     for (pa, pb, sched), pos, res in zip(pairs, poss, results):
@@ -141,6 +156,13 @@ def run(ctx):
         for prog, idx in ((pa, pos["a"]), (pb, pos["b"])):
             rr = [{"k": "none"}] + [rs[at] if at < len(rs) else {"k": "abort"} for at in idx]
             progs.append(prog); fake.append({"results": rr})
+        for at in pos["fresh"]:
+            o = rs[at] if at < len(rs) else {"k": "missing"}
+            if not (o.get("k") == "value" and o["v"] == {"t": "int", "v": 3}):
+                text = "B: %s | schedule %s" % (" ".join(S.render(f) for f in pb)[:300], sched[:40])
+                ctx.violation([{"kind": "input", "value": text}], "a new instance created while another instance keeps failing does not work: %s (%s)" % (json.dumps(o)[:200], text),
+                              {"stage": "validate", "pb": pb, "sched": sched})
+                break
     mism = validate_recorded(ctx, progs, fake, "validate")
     M.report_mismatches(ctx, progs, mism, sigs_fn)
     for p in progs:
